@@ -39,7 +39,8 @@ mut("unknown_call_path", 1, lambda e: e.__setitem__("via", "magic"))
 mut("int_dtype_on_real_data", 5, lambda e: e.__setitem__("dtype", "int64"))
 mut("unknown_dtype", 1, lambda e: e.__setitem__("dtype", "float16"))
 mut("measured_tails_not_monotone", 5, lambda e: e["tails"][0].__setitem__(2, e["tails"][0][1] + 5))
-rej = chk.validate("SVDDecompTrace", evs)
+mut("known_bad_combination", 1, lambda e: (e.__setitem__("svd", "symeig_svd"), e.__setitem__("pow2", -66)))
+rej = chk.validate("SVDDecompTrace", evs, env={"C09_KNOWN_BAD": "exclude"})
 for r in sorted(rej, key=str): print(r[:2])
 print("machinery:", chk.machinery)
 ids = {r[0] for r in rej}
